@@ -38,10 +38,10 @@ def c10(ck, replay=None):
     ck.sensitive('source failure not published to the peers (D9b/c)', 'Tee',
                  tee_cfg(2, 4, 3, ['EndAgree'], publish=False), 'invariant', 'EndAgree')
     rnd = random.Random(ck.seed * 1000003 + 53)
-    scs = TB.gen_scenarios(rnd, 250 if thorough else 60)
+    scs = TB.gen_scenarios(rnd, 1500 if thorough else 60)
     items, k = [], 0
     for sc in scs:
-        for j in range(8 if thorough else 5):
+        for j in range(10 if thorough else 5):
             k += 1
             items.append({'id': k, 'sc': sc, 'seed': rnd.randrange(1 << 30), 'strategy': ['random', 'pct'][j % 2]})
     out = ck.run_binder('tee', items, timeout=1200)
